@@ -23,6 +23,7 @@ def main : IO UInt32 := do
   let first ← stdin.getLine
   match fields (first.dropEndWhile (· == '\n')).toString with
   | ["model", "typename"] => loopPure stdin stdout TypeName.driverStep
+  | ["model", "codec"] => loopState stdin stdout Codec.driverStep {}
   | _ => IO.eprintln s!"unknown model line: {first}"; return 2
   stdout.flush
   return 0
